@@ -176,69 +176,6 @@ theorem splitsAgree_swap (st : StructTable) (a b : String) (env : Env) (c : Call
   unfold splitsAgree
   rw [splitVals_swap]
 
-/-- the callee denotations of the renamed body: on the renamed path / fork entry
-they answer what the original ones answer on the original path / fork entry
-(this is how the recorded stage outputs are re-keyed by the renaming) -/
-def RunnerRel (a b : String) (path : List String) (forks : List (String × Idx))
-    (run run' : Runner) : Prop :=
-  ∀ (callee x : String) (args : J),
-    run' callee (path ++ [swapId a b x]) forks args = run callee (path ++ [x]) forks args ∧
-    ∀ ix, run' callee (path ++ [swapId a b x]) (forks ++ [(swapId a b x, ix)]) args
-        = run callee (path ++ [x]) (forks ++ [(x, ix)]) args
-
-theorem evalCall_swap (st : StructTable) (nf : Nat) (insOf : String → List Param)
-    (a b : String) (run run' : Runner) (path : List String) (forks : List (String × Idx))
-    (hrel : RunnerRel a b path forks run run') (env : Env) (c : Call) :
-    evalCall st nf insOf run' path forks (swapEnv a b env) (swapCall a b c)
-      = evalCall st nf insOf run path forks env c := by
-  unfold evalCall
-  simp only [callMode_swap, argVals_swap, callIndices_swap, splitsAgree_swap]
-  have hcallee : (swapCall a b c).callee = c.callee := rfl
-  have hmapped : (swapCall a b c).mapped = c.mapped := rfl
-  have hid : (swapCall a b c).id = swapId a b c.id := rfl
-  rw [hcallee, hmapped, hid]
-  have hdis : (swapCall a b c).disabled = c.disabled.map fun d => (d.1, swapExp a b d.2) := rfl
-  rw [hdis]
-  cases hd : c.disabled with
-  | none =>
-    simp only [Option.map_none, (hrel _ _ _).1, (hrel _ _ _).2]
-  | some d =>
-    obtain ⟨s, e⟩ := d
-    cases s <;> simp only [Option.map_some, eval_swap, (hrel _ _ _).1, (hrel _ _ _).2]
-
-theorem evalCalls_swap (st : StructTable) (nf : Nat) (insOf : String → List Param)
-    (a b : String) (run run' : Runner) (path : List String) (forks : List (String × Idx))
-    (hrel : RunnerRel a b path forks run run') :
-    ∀ (cs : List Call) (env : Env) (acc : List Inst),
-      evalCalls st nf insOf run' path forks (cs.map (swapCall a b)) (swapEnv a b env) acc
-        = (swapEnv a b (evalCalls st nf insOf run path forks cs env acc).1,
-           (evalCalls st nf insOf run path forks cs env acc).2)
-  | [], env, acc => by simp [evalCalls]
-  | c :: cs, env, acc => by
-    simp only [List.map_cons, evalCalls, evalCall_swap st nf insOf a b run run' path forks hrel]
-    have henv : ({ swapEnv a b env with
-          calls := (swapEnv a b env).calls ++
-            [((swapCall a b c).id, (evalCall st nf insOf run path forks env c).1,
-              (evalCall st nf insOf run path forks env c).2.1)] } : Env)
-        = swapEnv a b { env with
-          calls := env.calls ++
-            [(c.id, (evalCall st nf insOf run path forks env c).1,
-              (evalCall st nf insOf run path forks env c).2.1)] } := by
-      simp [swapEnv, swapCall]
-    rw [henv]
-    exact evalCalls_swap st nf insOf a b run run' path forks hrel cs _ _
-
-/-- a runner that really depends on the call id, and its re-keyed counterpart -/
-def idRunner : Runner := fun _ p f _ =>
-  (.arr ((p.map J.atom) ++ f.map fun e => J.atom e.1), [])
-
-def idRunnerSwapped (a b : String) : Runner := fun callee p f args =>
-  idRunner callee (p.map (swapId a b)) (f.map fun e => (swapId a b e.1, e.2)) args
-
-theorem idRunner_rel (a b : String) : RunnerRel a b [] [] idRunner (idRunnerSwapped a b) := by
-  intro callee x args
-  simp [idRunnerSwapped, idRunner, swapId_invol]
-
 /-! ## example objects for the non-vacuity examples of Props/C01.lean -/
 
 def tInt : Ty := ⟨"int", 0, 0⟩
